@@ -95,6 +95,13 @@ def check_case(acc, kind, arch, params, tag=None):
         bad("born:normalization-vs-sum", Z, float(np.exp(logZ)))
     if not close(p.sum() / Z, 1.0, TOL):
         bad("born:probabilities-do-not-sum-to-one", float(p.sum() / Z), 1.0)
+    try:
+        pn = call(st.probability, space, Z).numpy()
+        Z2 = float(call(st.compute_normalization, space))
+        if not close(np.log(pn), la - logZ, TOL) or not close(pn.sum(), 1.0, TOL) or Z2 != Z:
+            bad("born:normalised-probability", pn, np.exp(la - logZ))
+    except LibRaised as e:
+        bad(f"born:raised:{e.kind}", e.tb, None)
     mod2 = np.abs(psi) ** 2
     if not close(mod2 / np.exp(la), np.ones_like(la), TOL):
         bad("born:psi-modulus-vs-probability", mod2, np.exp(la))
